@@ -361,6 +361,13 @@ impl<'t, 'c> Gen<'t, 'c> {
                     };
                     cases.push(GCase { name: cname, fields });
                 }
+                // a variant may have a case spelled `Default` (the name the language gives the single case of
+                // a record) anywhere in its declaration
+                if !record && n_cases >= 2 && self.t.chance(1, 5) {
+                    let k = 1 + self.t.pick(n_cases - 1);
+                    cases[k].name = "Default".to_string();
+                    self.mark("variant_case_named_default_not_first");
+                }
                 self.prog.types.push(GType { name: TYPE_NAMES[i].to_string(), record, cases });
             }
             if self.feat.aliases && !self.prog.types.is_empty() && self.t.chance(1, 3) {
@@ -1332,7 +1339,15 @@ impl<'t, 'c> Gen<'t, 'c> {
             let n = self.t.weighted(&[5, 3, 1]);
             for i in 0..n {
                 self.mark("reference_input");
-                let e = self.gen_ref();
+                // one time in six the reference names a UTxO that an input block of this transaction spends
+                let spent: Vec<(Vec<u8>, u32)> = utxos.iter().flatten().map(|u| (u.txid.clone(), u.index)).collect();
+                let e = if !spent.is_empty() && self.t.chance(1, 6) {
+                    self.mark("reference_to_a_spent_utxo");
+                    let (txid, ix) = spent[self.t.pick(spent.len())].clone();
+                    GExpr::RefLit(txid, ix)
+                } else {
+                    self.gen_ref()
+                };
                 self.cur.refs.push((REF_NAMES[i].to_string(), e));
             }
         }
